@@ -498,6 +498,7 @@ func workC18(req *Request, set []byte) {
 		return
 	}
 	// ---- per message: a fresh cache, then reflector + codec
+	freshTerm := map[string]string{} // message -> the fresh cache's answer as a term
 	for _, md := range msgs {
 		md := md
 		full := string(md.FullName())
@@ -514,6 +515,7 @@ func workC18(req *Request, set []byte) {
 				o.Extra = "dump: " + terr.Error()
 			}
 			o.Term = term
+			freshTerm[full] = term
 			pkg, path := string(md.ParentFile().Package()), strings.SplitN(joinSplit(md), "/", 2)[1]
 			o.addViol(checkRoot(ix, pkg, path, r))
 		})
@@ -718,15 +720,29 @@ func workC18(req *Request, set []byte) {
 		cache := j5schema.NewSchemaCache()
 		for _, md := range order {
 			md := md
+			var got j5schema.RootSchema
 			class, msg, site := guard(func() error {
-				_, err := cache.Schema(md)
+				var err error
+				got, err = cache.Schema(md)
 				return err
 			})
 			if site != "" {
 				msg = msg + " @" + site
 			}
+			// cache transparency of values: the shared cache's answer against the fresh cache's
+			same := "na"
+			if ft, ok := freshTerm[string(md.FullName())]; ok && class == "ok" && got != nil && ft != "" {
+				if t, terr := descgen.InternalRootTerm(got); terr == nil {
+					if t == ft {
+						same = "same"
+					} else {
+						same = "diff"
+					}
+				}
+			}
 			o.Names = append(o.Names, string(md.FullName()))
 			o.Sub = append(o.Sub, class)
+			o.Same = append(o.Same, same)
 			o.SubMsg = append(o.SubMsg, short(msg))
 		}
 	})
